@@ -206,7 +206,62 @@ def run_plain(rep, tier):
             rep.violation("autograd.numpy.numpy_wrapper:VT-plain", lab, f"{lab}: {det}", replay=dict(module="contracts.value_transparency", name=f"VT-plain {lab}"), witness=True)
 
 
+def run_outputs(rep, tier):
+    """VT-outputs: what a differential operator hands back next to the derivative (the value, an aux output) is the plain object the function computed -
+    never a box - also when it depends on the differentiated argument, and an OUTER derivative taken through it is right."""
+    import warnings
+
+    import numpy as onp
+
+    import autograd.numpy as anp
+    from autograd import grad, grad_and_aux, make_jvp, value_and_grad, jacobian, elementwise_grad, holomorphic_grad, deriv
+    from autograd.core import make_vjp
+    from autograd.tracer import isbox
+    x0 = onp.array([0.5, -1.5, 2.0])
+    f = lambda v: anp.sum(v ** 3)
+    from autograd.builtins import dict as adict   # plain Python containers that merely hold traced values are documented as opaque: autograd's own dict is in the domain
+    aux_f = lambda v: (anp.sum(v ** 3), adict({"twice": v * 2.0, "n": 3.0}))
+
+    def plain(v):
+        if isinstance(v, dict):
+            return all(plain(u) for u in v.values())
+        if isinstance(v, (tuple, list)):
+            return all(plain(u) for u in v)
+        return not isbox(v)
+    tests = [
+        ("value_and_grad value", lambda: (lambda r: plain(r) and r[0] == f(x0))(value_and_grad(f)(x0))),
+        ("make_vjp value", lambda: (lambda r: plain(r[1]) and r[1] == f(x0) and plain(r[0](1.0)))(make_vjp(f, x0))),
+        ("make_jvp value", lambda: (lambda r: plain(r) and r[0] == f(x0))(make_jvp(f)(x0)(onp.ones(3)))),
+        ("grad_and_aux aux depends on x", lambda: (lambda r: plain(r) and onp.array_equal(r[1]["twice"], x0 * 2.0) and r[1]["n"] == 3.0 and onp.allclose(r[0], 3 * x0 ** 2))(grad_and_aux(aux_f)(x0))),
+        ("grad_and_aux aux is the argument itself", lambda: (lambda r: plain(r) and r[1] is x0)(grad_and_aux(lambda v: (anp.sum(v), v))(x0))),
+        ("outer grad through aux", lambda: onp.allclose(grad(lambda v: anp.sum(grad_and_aux(lambda p: (anp.sum(p * p), p ** 3))(v)[1]))(x0), 3 * x0 ** 2)),
+        ("outer grad through value_and_grad value", lambda: onp.allclose(grad(lambda v: value_and_grad(lambda p: anp.sum(p ** 3))(v)[0])(x0), 3 * x0 ** 2)),
+        ("outer jvp through aux", lambda: onp.allclose(make_jvp(lambda v: grad_and_aux(lambda p: (anp.sum(p * p), p ** 3))(v)[1])(x0)(onp.ones(3))[1], 3 * x0 ** 2)),
+        ("jacobian / elementwise_grad / deriv outputs", lambda: plain(jacobian(lambda v: v ** 2)(x0)) and plain(elementwise_grad(lambda v: v ** 2)(x0)) and plain(deriv(lambda v: v ** 2)(1.5))),
+        ("holomorphic_grad output", lambda: plain(holomorphic_grad(lambda z: z * z)(1.0 + 2.0j))),
+        ("inner operator results inside an outer trace are usable", lambda: onp.allclose(grad(lambda v: anp.sum(grad(f)(v) * v))(x0), 9 * x0 ** 2)),
+    ]
+    with warnings.catch_warnings():
+        warnings.simplefilter("ignore")
+        for lab, fn in tests:
+            try:
+                ok, det = bool(fn()), "holds"
+            except Exception as e:
+                ok, det = False, f"raised {type(e).__name__}: {str(e)[:100]}"
+            rep.bounded_case(("VT-outputs", lab), sample=dict(case=lab, clause="VT-outputs") if ok and len(rep.bounded_samples) < 3 else None)
+            if not ok:
+                rep.violation("autograd.differential_operators:VT-outputs", lab, f"{lab}: {det if det != 'holds' else 'a box leaked, or the value / derivative through it is wrong'}",
+                              replay=dict(module="contracts.value_transparency", name=f"VT-outputs {lab}"), witness=True)
+
+
 def replay(spec):
+    if spec.get("name", "").startswith("VT-outputs "):
+        from vlib.common import Report
+        r = Report("replay", "quick", "other", "replay")
+        r.known = {"findings": []}
+        run_outputs(r, "quick")
+        bad = [x for x in r.violations if x["case"] == spec["name"][len("VT-outputs "):]]
+        return (not bad), (bad[0]["what"] if bad else "holds"), "plain NumPy evaluation of the same function"
     if spec.get("name", "").startswith("VT-plain "):
         from vlib.common import Report
         r = Report("replay", "quick", "other", "replay")
